@@ -297,7 +297,9 @@ Definition write_dict : adict wfacts :=
    at_ "exc#4:self._apply_changes" (fun f => w_io f =? 4);
    at_ "lenient" w_lenient;
    at_ "exc#8:parse_with_warnings" (fun f => negb (w_pst f =? 0));
-   at_ "exc#9:tokenize" (fun f => w_pst f =? 1);
+   at_ "exc#9:tokenize" (fun f => w_pst f =? 1);                     (* up to /repo f3e003d: tokenize(parse_input) *)
+   at_ "exc#9:_strip_yaml_frontmatter" (fun f => w_pst f =? 1);      (* since /repo c296b0f: the try body first blanks the YAML
+                                                                        frontmatter, then tokenises (same fact: tokenisation fails) *)
    at_ "exc#10:parse" (fun f => w_pst f =? 2);
    at_ "exc#12:emit" (fun f => negb (w_emit_ok f));
    at_ "schema_name" w_schema;
